@@ -10,6 +10,7 @@ from hypothesis.stateful import RuleBasedStateMachine, initialize, invariant, pr
 from tfv import core
 from tfv.core import HChooser, Violation, run_async
 from tfv.data import Tree
+from tfv.pristine import Pristine
 from tfv.impl import Harness, clean_registry, fresh_schema_name
 from tfv.model import canon, print_document
 from tfv.mutate import mutants
@@ -111,6 +112,8 @@ def build_pool(c, schema, plan):
             ms = list(mutants(schema, spec["doc"]))
             if not ms:
                 continue
+            rewrite = c.choice(sorted({m[0] for m in ms}))  # rule first, then a site: every rule gets the same share
+            ms = [m for m in ms if m[0] == rewrite]
             r["query"] = print_document(ms[c.int(0, len(ms) - 1)][3]).text
         elif kind == "syntax":
             r["query"] = c18.mutate_tokens(c, r0["query"]) + c.choice(["", " {", "}"])
@@ -164,9 +167,21 @@ def send(h, schema, r):
     return out
 
 
+def ident(r):
+    """identity of a request: the str and the bytes spelling of one text are the same request"""
+    q = r["query"]
+    if isinstance(q, dict):
+        try:
+            q = bytes.fromhex(q["$bytes"]).decode("utf-8")
+        except UnicodeDecodeError:
+            q = "$bytes:" + q["$bytes"]
+    return canon([q, r["op"], core.jsonable(r["variables"]), r.get("faults"), r.get("tree")])
+
+
 class World:
-    def __init__(self, schema, plan, pool, rebuild_every_step, caches=None):
+    def __init__(self, schema, plan, pool, rebuild_every_step, caches=None, pristine=False):
         self.schema, self.plan, self.pool = schema, plan, pool
+        self.pristine, self.pmemo = pristine, {}
         clean_registry()
         self.engines = []
         self.caches = list(caches or CACHES)
@@ -182,16 +197,29 @@ class World:
         """thorough: a freshly cooked engine without parsing cache at every step; quick: the first answer of one
         cache-less engine cooked for this history (a cache-less engine re-parses every time, so it has no
         parsing history; what it answered first is what a fresh engine answers)"""
+        key = ident(self.pool[i])
+        use_pristine = self.pristine or self.pool[i]["kind"] == "invalid"  # invalid documents: in every history (what validation keeps at module level shows there)
+        if use_pristine and _STATS.get("pristine") is not None:
+            # a fresh cache-less engine in a process that has never served a request (forked from a zygote created
+            # before this worker executed anything): also free of whatever the library keeps at module level
+            if key not in self.pmemo:
+                self.pmemo[key] = _STATS["pristine"].call("tfv.props.c16", "pristine_answer", self.schema, self.plan, self.pool[i])
+            if not self.rebuild:
+                return self.pmemo[key]
         if not self.rebuild:
-            if i not in self.memo:
+            if key not in self.memo:
                 if getattr(self, "uncached", None) is None:
                     self.uncached = Harness(self.schema, self.plan, None)
                     run_async(self.uncached.build(query_cache_decorator=None))
-                self.memo[i] = send(self.uncached, self.schema, self.pool[i])
-            return self.memo[i]
+                self.memo[key] = send(self.uncached, self.schema, self.pool[i])
+            return self.memo[key]
         h = Harness(self.schema, self.plan, None)
         run_async(h.build(query_cache_decorator=None))
-        return send(h, self.schema, self.pool[i])
+        ref = send(h, self.schema, self.pool[i])
+        if use_pristine and key in self.pmemo and self.pmemo[key] != ref:
+            spec = {"schema": self.schema, "plan": self.plan, "pool": self.pool, "history": list(self.history) + [i], "caches": self.caches}
+            raise Violation(spec, "a fresh cache-less engine answers request #%d differently in this process (history %r) than in a process that never served a request\n here:     %s\n pristine: %s" % (i, self.history, ref[:1500], self.pmemo[key][:1500]), tag="process_state")
+        return ref
 
     def step(self, i):
         self.history.append(i)
@@ -233,7 +261,11 @@ class CacheMachine(RuleBasedStateMachine):
         pool = build_pool(c, schema, plan)
         # quick tier: the default LRU, the 1-slot LRU (evictions) and one more configuration; thorough: all five
         caches = CACHES if _STATS["tier"] == "thorough" else ["default", "lru1", c.choice(["lru2", "dict", "none"])]
-        self.world = World(schema, plan, pool, _STATS["tier"] == "thorough", caches)
+        # the fresh-process oracle costs a fork + cook per distinct request: always in the thorough tier, a quarter of the histories in quick
+        pristine = _STATS["tier"] == "thorough" or c.maybe(25)
+        self.world = World(schema, plan, pool, _STATS["tier"] == "thorough", caches, pristine)
+        if pristine and _STATS["stats"] is not None:
+            _STATS["stats"].hist["histories_with_fresh_process_oracle"] = _STATS["stats"].hist.get("histories_with_fresh_process_oracle", 0) + 1
 
     @rule(k=st.integers(0, 9))
     def send_one(self, k):
@@ -258,8 +290,17 @@ class CacheMachine(RuleBasedStateMachine):
             st_.case({"pool": [(r["query"], r["op"], r["variables"], r["faults"]) for r in w.pool], "h": list(w.history)}, w.nontrivial_step(), ["kind:" + w.pool[i]["kind"], "resend"])
 
 
+def pristine_answer(schema, plan, r):
+    """runs in a forked child of the zygote (tfv/pristine.py)"""
+    clean_registry()
+    h = Harness(schema, plan, None)
+    run_async(h.build(query_cache_decorator=None))
+    return send(h, schema, r)
+
+
 def run_worker(seed, tier, index, nworkers):
     stats = core.Stats(max_samples=2)
+    _STATS["pristine"] = Pristine()  # before this process executes anything
     _STATS["stats"], _STATS["tier"] = stats, tier
     scale = float(os.environ.get("TFV_SCALE", "1"))
     n = max(1, int(CASES[tier] * scale / nworkers))
@@ -276,15 +317,20 @@ def run_worker(seed, tier, index, nworkers):
             viol.message = "(not reproducible on immediate re-execution: the engine keeps state across requests/engines) " + viol.message
         else:
             raise
+    _STATS["pristine"].close()
     out = stats.export()
     out["violations"] = [{"spec": core.jsonable(viol.spec), "message": viol.message}] if viol else []
     return out
 
 
 def replay(spec):
-    w = World(spec["schema"], spec["plan"], spec["pool"], True, spec.get("caches"))
-    for i in spec["history"]:
-        w.step(i)
+    _STATS["pristine"] = Pristine()
+    try:
+        w = World(spec["schema"], spec["plan"], spec["pool"], True, spec.get("caches"), True)
+        for i in spec["history"]:
+            w.step(i)
+    finally:
+        _STATS["pristine"].close()
 
 
 TECHNIQUE = "stateful property-based testing (Hypothesis RuleBasedStateMachine) over request histories; differential oracle = fresh engine without parsing cache"
